@@ -68,7 +68,27 @@ macro_rules! pair {
         if a.partial_cmp(&b) != Some(a.cmp(&b)) {
             return "partial-cmp-differs".to_string();
         }
-        format!("eq={} cmp={} rcmp={} hasheq={}", (a == b) as u8, c(a.cmp(&b)), c(b.cmp(&a)), (h(&a) == h(&b)) as u8)
+        // duplication: clone() keeps a's text; clone_from(&b) turns the value into b, text included
+        // (directly and through Option / Vec, which forward to the element's clone_from)
+        let cl = a.clone();
+        let mut cf = a.clone();
+        cf.clone_from(&b);
+        let mut co = Some(a.clone());
+        co.clone_from(&Some(b.clone()));
+        let mut cv = vec![a.clone()];
+        cv.clone_from(&vec![b.clone()]);
+        if co.as_ref().map(|x| x.as_str()) != Some(cf.as_str()) || cv[0].as_str() != cf.as_str() || cf.url() != b.url() || cl.url() != a.url() {
+            return "clone-from-inconsistent".to_string();
+        }
+        format!(
+            "eq={} cmp={} rcmp={} hasheq={} clone={} clonefrom={}",
+            (a == b) as u8,
+            c(a.cmp(&b)),
+            c(b.cmp(&a)),
+            (h(&a) == h(&b)) as u8,
+            tok_bytes(cl.as_str().as_bytes()),
+            tok_bytes(cf.as_str().as_bytes())
+        )
     }};
 }
 
